@@ -113,7 +113,7 @@ def run(ctx):
                 alts.add(CHARSET[(CHARSET.index(orig) + 1) % len(CHARSET)])
                 alts.add(CHARSET[(CHARSET.index(orig) + 32) % len(CHARSET)] if CHARSET.index(orig) + 32 < len(CHARSET) else CHARSET[CHARSET.index(orig) % 32])
                 if not q or pos % 7 == 0:
-                    alts.update(rng.sample(CHARSET, 4 if q else 94))
+                    alts.update(rng.sample(CHARSET, 4 if q else 10))      # (each candidate costs a full descriptor parse: ~20 ms of pure-python EC)
                 alts.discard(orig)
                 for ch in alts:
                     cand = text[:pos] + ch + text[pos + 1:]
